@@ -166,8 +166,9 @@ func (p *LookupProtocolV1) UNREGISTER(client *ClientV1, reader *bufio.Reader, pa
 				client, "channel", topic, channel)
 		}
 		// for ephemeral channels, remove the channel as well if it has no producers
+		// (re-checked under the DB lock: another producer may have registered meanwhile)
 		if left == 0 && strings.HasSuffix(channel, "#ephemeral") {
-			p.nsqlookupd.DB.RemoveRegistration(key)
+			p.nsqlookupd.DB.RemoveRegistrationIfEmpty(key)
 		}
 	} else {
 		// no channel was specified so this is a topic unregistration
@@ -190,7 +191,7 @@ func (p *LookupProtocolV1) UNREGISTER(client *ClientV1, reader *bufio.Reader, pa
 				client, "topic", topic, "")
 		}
 		if left == 0 && strings.HasSuffix(topic, "#ephemeral") {
-			p.nsqlookupd.DB.RemoveRegistration(key)
+			p.nsqlookupd.DB.RemoveRegistrationIfEmpty(key)
 		}
 	}
 
